@@ -7,3 +7,17 @@ func VerifParseNum(x string) (float64, bool) {
 	v, err := parseNum(x)
 	return v, err == nil
 }
+
+// VerifKeyVals exposes the (trimmed) row stored in a key node.
+func VerifKeyVals(k Key) []string { return k.k.vals }
+
+// VerifEqualRow exposes keyNode.equalRow, the comparison used by the bucket scan of internRow
+// (with the real maphash, hash collisions never occur, so it is otherwise unobservable).
+func VerifEqualRow(vals, row []string) (eq bool) {
+	defer func() {
+		if recover() != nil {
+			eq = false
+		}
+	}()
+	return (&keyNode{nil, vals}).equalRow(row)
+}
